@@ -1,6 +1,8 @@
 // C14 correspondence harness: the real PID store (RootPidStore::LoadFromDirectory on data/rdm),
 // the real MessageDeserializer / MessageSerializer / VariableFieldSizeCalculator /
 // DescriptorConsistencyChecker on exact-size heap copies (ASan sees any over-read).
+#include <algorithm>
+#include <map>
 #include <memory>
 #include <string>
 #include <vector>
@@ -17,7 +19,10 @@
 #undef private
 #include <pthread.h>
 #include "common/rdm/DescriptorConsistencyChecker.h"
+#include <dirent.h>
+#include <sys/stat.h>
 #include "common/rdm/GroupSizeCalculator.h"
+#include "common/rdm/PidStoreLoader.h"
 #include "common/rdm/VariableFieldSizeCalculator.h"
 #include "c14_desc.h"
 #include "vh.h"
@@ -94,35 +99,178 @@ static void all_descs_of(const RootPidStore *root, vector<DescRef> *out) {
 }
 static void all_descs(vector<DescRef> *out) { all_descs_of(g_store, out); }
 
-// two independent polynomial hashes of the canonical dump of a store (descriptors, then PIDs)
-static string store_digest(const RootPidStore *root, unsigned *ndesc, unsigned *npids) {
-  std::ostringstream dump;
+// order-independent digest of a store: sum (mod two primes) of polynomial hashes of its entries
+//   D:<man>:<pid>:<kind>:<descriptor>   P:<man>:<pid>:<name>   S:<man> (a store exists)
+struct Digest {
+  unsigned long long s1, s2;
+  Digest() : s1(0), s2(0) {}
+  void Add(const string &t) {
+    unsigned long long h1 = 7, h2 = 11;
+    for (size_t i = 0; i < t.size(); i++) {
+      unsigned c = static_cast<unsigned char>(t[i]);
+      h1 = (h1 * 131 + c) % 1000000007ULL;
+      h2 = (h2 * 257 + c) % 998244353ULL;
+    }
+    s1 = (s1 + h1) % 1000000007ULL;
+    s2 = (s2 + h2) % 998244353ULL;
+  }
+};
+static string store_digest(const RootPidStore *root, unsigned *ndesc, unsigned *npids, unsigned *nstores = NULL) {
+  Digest dg;
   vector<DescRef> ds;
   all_descs_of(root, &ds);
   for (size_t i = 0; i < ds.size(); i++)
-    dump << ds[i].man << ":" << ds[i].pid << ":" << ds[i].kind << ":" << c14::desc_str(ds[i].d) << ";";
+    dg.Add("D:" + vh::str(ds[i].man) + ":" + vh::str(ds[i].pid) + ":" + vh::str(ds[i].kind) + ":" +
+           c14::desc_str(ds[i].d));
   *ndesc = ds.size();
   *npids = 0;
   vector<std::pair<unsigned, const PidStore*> > stores;
-  stores.push_back(std::make_pair(0u, root->m_esta_store.get()));
+  if (root->m_esta_store.get()) stores.push_back(std::make_pair(0u, root->m_esta_store.get()));
   RootPidStore::ManufacturerMap::const_iterator mit = root->m_manufacturer_store.begin();
   for (; mit != root->m_manufacturer_store.end(); ++mit)
     stores.push_back(std::make_pair(static_cast<unsigned>(mit->first), mit->second));
   for (size_t i = 0; i < stores.size(); i++) {
+    dg.Add("S:" + vh::str(stores[i].first));
     vector<const PidDescriptor*> l;
     stores[i].second->AllPids(&l);
     *npids += l.size();
-    for (size_t k = 0; k < l.size(); k++)
-      dump << stores[i].first << ":" << l[k]->Value() << ":" << l[k]->Name() << ";";
+    for (size_t k = 0; k < l.size(); k++) {
+      dg.Add("P:" + vh::str(stores[i].first) + ":" + vh::str(l[k]->Value()) + ":" + l[k]->Name());
+      // the by-name index must find the same definition
+      if (stores[i].second->LookupPID(l[k]->Name()) != l[k] ||
+          stores[i].second->LookupPID(l[k]->Value()) != l[k])
+        dg.Add("INDEX-MISMATCH:" + l[k]->Name());
+    }
+    if (stores[i].second->m_pid_by_name.size() != l.size()) dg.Add("NAME-INDEX-SIZE:" + vh::str(stores[i].first));
   }
-  const string t = dump.str();
-  unsigned long long h1 = 7, h2 = 11;
-  for (size_t i = 0; i < t.size(); i++) {
-    unsigned c = static_cast<unsigned char>(t[i]);
-    h1 = (h1 * 131 + c) % 1000000007ULL;
-    h2 = (h2 * 257 + c) % 998244353ULL;
+  if (nstores) *nstores = stores.size();
+  return vh::str(dg.s1) + "." + vh::str(dg.s2);
+}
+static string digest_line(const RootPidStore *st) {
+  if (!st) return "lx=FAILED";
+  unsigned nd = 0, np = 0, ns = 0;
+  string dg = store_digest(st, &nd, &np, &ns);
+  return "lx=ok;ndesc=" + vh::str(nd) + ";npids=" + vh::str(np) + ";nstores=" + vh::str(ns) + ";dg=" + dg;
+}
+
+static vector<string> shipped_files() {
+  vector<string> out;
+  DIR *dp = opendir(PID_DATA_DIR);
+  if (!dp) return out;
+  while (struct dirent *e = readdir(dp)) {
+    string n = e->d_name;
+    if (n.size() > 6 && n.substr(n.size() - 6) == ".proto") out.push_back(n);
   }
-  return vh::str(h1) + "." + vh::str(h2);
+  closedir(dp);
+  std::sort(out.begin(), out.end());
+  return out;
+}
+static string slurp(const string &path) {
+  std::ifstream f(path.c_str());
+  std::ostringstream o;
+  o << f.rdbuf();
+  return o.str();
+}
+
+// override spec: "none" or entries joined by '+': <man>/<pid>/<NAME>/<d0>/<d1>/<d2>/<d3>, di = descriptor
+// text or "~" (absent).  Returns the text of an overrides.proto.
+static bool overrides_text(const string &spec, string *out) {
+  std::map<unsigned, string> per_man;    // manufacturer id -> pid blocks
+  vector<string> es = vh::split(spec, '+');
+  static const char *kinds[] = {"get_request", "get_response", "set_request", "set_response"};
+  for (size_t i = 0; i < es.size(); i++) {
+    vector<string> f = vh::split(es[i], '/');
+    if (f.size() != 7) return false;
+    std::ostringstream b;
+    b << "pid { name: \"" << f[2] << "\" value: " << vh::num(f[1]) << " ";
+    for (int k = 0; k < 4; k++) {
+      if (f[3 + k] == "~") continue;
+      std::auto_ptr<const Descriptor> d(c14::parse_desc(f[3 + k]));
+      if (!d.get()) return false;
+      b << kinds[k] << " { " << c14::proto_fields(d.get()) << "} ";
+    }
+    b << "}\n";
+    per_man[vh::num(f[0])] += b.str();
+  }
+  std::ostringstream o;
+  o << per_man[0];
+  for (std::map<unsigned, string>::iterator it = per_man.begin(); it != per_man.end(); ++it) {
+    if (it->first == 0) continue;
+    o << "manufacturer { manufacturer_id: " << it->first << " manufacturer_name: \"override\"\n"
+      << it->second << "}\n";
+  }
+  o << "version: 1\n";
+  *out = o.str();
+  return true;
+}
+
+// "ldo <validate> <dir|dirl|stream> <spec>": the shipped files (symlinked into a scratch directory) plus an
+// overrides.proto generated from <spec>, through one loader entry point
+static string ldo_op(bool validate, const string &entry, const string &spec) {
+  vector<string> files = shipped_files();
+  if (files.empty()) return "lx=no-shipped-files";
+  if (entry == "stream") {
+    if (spec != "none") return "lx=bad-args";
+    // one stream = the concatenated PID files; the singular `version` field may appear once only
+    string all;
+    for (size_t i = 0; i < files.size(); i++) {
+      if (files[i] == "manufacturer_names.proto" || files[i] == "overrides.proto") continue;
+      std::istringstream one(slurp(string(PID_DATA_DIR) + "/" + files[i]));
+      string line;
+      while (std::getline(one, line))
+        if (line.compare(0, 8, "version:") != 0) all += line + "\n";
+    }
+    all += "version: 1\n";
+    std::istringstream in(all);
+    ola::rdm::PidStoreLoader loader;
+    std::auto_ptr<const RootPidStore> st(loader.LoadFromStream(&in, validate));
+    return digest_line(st.get());
+  }
+  char tmpl[] = "/tmp/C14_ovr_XXXXXX";
+  if (!mkdtemp(tmpl)) return "lx=mkdtemp-failed";
+  string dir = tmpl;
+  bool ok = true;
+  for (size_t i = 0; i < files.size(); i++)
+    ok = ok && symlink((string(PID_DATA_DIR) + "/" + files[i]).c_str(), (dir + "/" + files[i]).c_str()) == 0;
+  if (spec != "none") {
+    string text;
+    ok = ok && overrides_text(spec, &text);
+    unlink((dir + "/overrides.proto").c_str());
+    std::ofstream f((dir + "/overrides.proto").c_str());
+    f << text;
+  }
+  string r = "lx=setup-failed";
+  if (ok) {
+    std::auto_ptr<const RootPidStore> st;
+    if (entry == "dir") {
+      st.reset(RootPidStore::LoadFromDirectory(dir, validate));
+    } else {
+      ola::rdm::PidStoreLoader loader;
+      st.reset(loader.LoadFromDirectory(dir + "/", validate));
+    }
+    r = digest_line(st.get());
+  }
+  for (size_t i = 0; i < files.size(); i++) unlink((dir + "/" + files[i]).c_str());
+  unlink((dir + "/overrides.proto").c_str());
+  rmdir(dir.c_str());
+  return r;
+}
+
+// "ldf <validate> <file|loader|stream> <name> ...": ONE shipped file through LoadFromFile / LoadFromStream
+static string ldf_op(bool validate, const string &entry, const string &name) {
+  string path = string(PID_DATA_DIR) + "/" + name;
+  std::auto_ptr<const RootPidStore> st;
+  if (entry == "file") {
+    st.reset(RootPidStore::LoadFromFile(path, validate));
+  } else if (entry == "loader") {
+    ola::rdm::PidStoreLoader loader;
+    st.reset(loader.LoadFromFile(path, validate));
+  } else {
+    std::istringstream in(slurp(path));
+    ola::rdm::PidStoreLoader loader;
+    st.reset(loader.LoadFromStream(&in, validate));
+  }
+  return digest_line(st.get());
 }
 
 // "load k": the shipped directory through another spelling of its path; every spelling must load,
@@ -151,10 +299,10 @@ static string load_op(unsigned k) {
   const RootPidStore *st = RootPidStore::LoadFromDirectory(spelled, true);
   if (relative && chdir(cwd) != 0) return "ld=chdir-back-failed";
   if (!st) return "ld=FAILED:" + spelled;
-  unsigned nd = 0, np = 0;
-  string dg = store_digest(st, &nd, &np);
+  unsigned nd = 0, np = 0, ns = 0;
+  string dg = store_digest(st, &nd, &np, &ns);
   delete st;
-  return "ld=ok;ndesc=" + vh::str(nd) + ";npids=" + vh::str(np) + ";dg=" + dg;
+  return "ld=ok;ndesc=" + vh::str(nd) + ";npids=" + vh::str(np) + ";nstores=" + vh::str(ns) + ";dg=" + dg;
 }
 
 // decode + re-encode through the long-lived PidStoreHelper; "same" or what the helper produced
@@ -479,6 +627,8 @@ static string handle(const string &p) {
   if (a[0] == "reload" && a.size() == 2) return reload_op(vh::num(a[1]));
   if (a[0] == "look" && a.size() == 2) return look_op(a[1]);
   if (a[0] == "load" && a.size() == 2) return load_op(vh::num(a[1]));
+  if (a[0] == "ldo" && a.size() == 4) return ldo_op(a[1] == "1", a[2], a[3]);
+  if (a[0] == "ldf" && a.size() >= 4) return ldf_op(a[1] == "1", a[2], a[3]);
   if (a[0] == "conc" && a.size() == 3) return conc_op(vh::num(a[1]), vh::num(a[2]));
   if (a[0] == "store") {
     // count what the store holds: descriptors and PIDs, as the exporter enumerated them
